@@ -2,7 +2,8 @@
    regexp parser planners place quoted request strings with %[2]s ... %[1]s.  One pass over the format, as doPrintf does it: the state is
    where the scan stands inside a directive (mode), the number of the next operand (argNum) and whether an index was seen (reordered:
    then fmt does not complain about unused operands).  Fragment: an index stands directly behind the percent sign and directly before
-   the verb, no flags / width / precision; anything else: None (never a guess).  Executable definitions only. *)
+   the verb; besides, the one flagged directive the repository uses, %0<width>d over an integer (zero padding; secondsText's %d.%09d);
+   other flags / width / precision, anything else: None (never a guess).  Executable definitions only. *)
 From Coq Require Import List String Ascii Bool NArith ZArith.
 From Qryn Require Import model.GoFmt model.GoFmtInt.
 Import ListNotations.
@@ -12,7 +13,9 @@ Inductive mode :=
 | MText                       (* copying text *)
 | MPct                        (* behind a percent sign *)
 | MIdx (acc : option nat)     (* inside [ ... : digits read so far *)
-| MIdxDone (n : nat).         (* behind [n] : the verb comes next *)
+| MIdxDone (n : nat)          (* behind [n] : the verb comes next *)
+| MZero                       (* behind %0 : the zero-padding flag *)
+| MWid (w : nat).             (* behind %0<digits> : the width read so far *)
 
 Definition digit_of (c : ascii) : option nat :=
   let n := N_of_ascii c in if ((48 <=? n) && (n <=? 57))%N then Some (N.to_nat (n - 48)) else None.
@@ -22,6 +25,20 @@ Definition verb_at (v : ascii) (all : list operand) (k : nat) : option (string *
   match nth_error all k with
   | None => Some ("%!" ++ c2s v ++ "(MISSING)", k)
   | Some a => match print_verb2 v [a] with Some (txt, _) => Some (txt, S k) | None => None end
+  end.
+
+(* fmtInteger with the zero flag and a width (no other flag): the digits padded with zeros to the width, one place less when a sign
+   is printed, then the sign; a number longer than the width is printed in full *)
+Fixpoint zeros (n : nat) : string := match n with O => "" | S k => String "0" (zeros k) end.
+Definition pad0 (w : nat) (z : Z) : string :=
+  let digits := dec (Z.abs z) in
+  if (z <? 0)%Z then String "-" (zeros (w - 1 - String.length digits) ++ digits) else zeros (w - String.length digits) ++ digits.
+
+(* %0<w>d over operand number k: integers only (anything else: outside the fragment) *)
+Definition padded_at (all : list operand) (k : nat) (w : nat) : option (string * nat) :=
+  match nth_error all k with
+  | Some (OInt _ z) => Some (pad0 w z, S k)
+  | _ => None
   end.
 
 Definition outside_verb (v : ascii) : bool := spec_byte v || other_notation v || (128 <=? N_of_ascii v)%N.
@@ -39,6 +56,7 @@ Fixpoint go3 (all : list operand) (f : string) (m : mode) (argNum : nat) (reord 
     | MText => if is_pct c then go3 all r MPct argNum reord else option_map (fun o => String c o) (go3 all r MText argNum reord)
     | MPct =>
       if Ascii.eqb c "[" then go3 all r (MIdx None) argNum reord
+      else if Ascii.eqb c "0" then go3 all r MZero argNum reord
       else if outside_verb c then None
       else if is_pct c then option_map (fun o => "%" ++ o) (go3 all r MText argNum reord)
       else match verb_at c all argNum with
@@ -49,6 +67,25 @@ Fixpoint go3 (all : list operand) (f : string) (m : mode) (argNum : nat) (reord 
       match digit_of c with
       | Some d => go3 all r (MIdx (Some (match acc with None => d | Some a => 10 * a + d end))) argNum reord
       | None => if Ascii.eqb c "]" then match acc with Some n => go3 all r (MIdxDone n) argNum reord | None => None end else None
+      end
+    | MZero =>
+      if Ascii.eqb c "0" then go3 all r MZero argNum reord
+      else match digit_of c with
+           | Some d => go3 all r (MWid d) argNum reord
+           | None => if Ascii.eqb c "d" then match padded_at all argNum 0 with
+                                             | Some (txt, k) => option_map (fun o => txt ++ o) (go3 all r MText k reord)
+                                             | None => None
+                                             end
+                     else None
+           end
+    | MWid w =>
+      match digit_of c with
+      | Some d => if Nat.leb w 999 then go3 all r (MWid (10 * w + d)) argNum reord else None
+      | None => if Ascii.eqb c "d" then match padded_at all argNum w with
+                                        | Some (txt, k) => option_map (fun o => txt ++ o) (go3 all r MText k reord)
+                                        | None => None
+                                        end
+                else None
       end
     | MIdxDone n =>
       if outside_verb c || is_pct c then None
